@@ -22,7 +22,7 @@ PROPS = {
     "C01": "p_c01", "C02": "p_c02", "C03": "p_c03", "C04": "p_c04", "C05": "p_c05",
     "C07": "p_c07", "C08": "p_c08", "C09": "p_c09", "C10": "p_c10", "C11": "p_c11",
     "C12": "p_c12", "C13": "p_c13", "C14": "p_c14", "C15": "p_c15", "C16": "p_c16",
-    "C17": "p_c17", "C19": "p_c19", "C20": "p_c20",
+    "C17": "p_c17", "C18": "p_c18", "C19": "p_c19", "C20": "p_c20",
 }
 
 
